@@ -337,7 +337,10 @@ fn environment_part(rep: &mut Report) {
         ("lang-c", vec![("PATH", "/usr/bin:/bin"), ("LANG", "C"), ("LC_ALL", "C")], "w1"),
         ("lang-utf8", vec![("PATH", "/usr/bin:/bin"), ("LANG", "C.UTF-8")], "w1"),
         ("other-cwd", vec![("PATH", "/usr/bin:/bin")], "deeper/w2"),
+        // the same file name was compiled before in this directory with a different, longer program
+        ("after-another-program", vec![("PATH", "/usr/bin:/bin")], "w1"),
     ];
+    let earlier = "data List[A] { Nil, Cons(x: A, xs: List[A]) }\ndata Tri { T0, T1(a: i64), T2(a: i64, b: i64) }\ncodata Fun[A, B] { ap(x: A): B }\ndef len(l: List[i64]): i64 { l.case[i64] { Nil => 0, Cons(h, t) => 1 + len(t) } }\ndef sum(l: List[i64]): i64 { l.case[i64] { Nil => 0, Cons(h, t) => h + sum(t) } }\ndef map(f: Fun[i64, i64], l: List[i64]): List[i64] { l.case[i64] { Nil => Nil, Cons(h, t) => Cons(f.ap[i64, i64](h), map(f, t)) } }\ndef tri(t: Tri): i64 { t.case { T0 => 0, T1(a) => a, T2(a, b) => a * b } }\ndef main(n: i64): i64 { println_i64(sum(map(new { ap(q) => q * n }, Cons(1, Cons(2, Cons(3, Cons(4, Nil))))))); println_i64(len(Cons(n, Nil)) + tri(T2(n, 3))); println_i64(tri(T1(n)) + tri(T0)); 0 }\n";
     let progs: Vec<(String, String)> = corpus().into_iter().filter(|(n, _)| n == "instances" || n == "Lists" || n == "history4").collect();
     for (name, src) in progs {
         let mut reference: Option<(String, Vec<(String, u64)>)> = None;
@@ -345,6 +348,21 @@ fn environment_part(rep: &mut Report) {
             let wd = base.join(ename).join(cwd);
             let _ = std::fs::create_dir_all(&wd);
             let file = wd.join("prog.sc");
+            // every environment starts from an empty output directory (each program's own history is
+            // part of the `after-another-program` environment only)
+            let _ = std::fs::remove_dir_all(wd.join("target_scc"));
+            if *ename == "after-another-program" {
+                std::fs::write(&file, earlier).unwrap();
+                for sub in [vec!["compile"], vec!["focus"], vec!["shrink"], vec!["linearize"], vec!["codegen", "x86-64"], vec!["codegen", "aarch64"]] {
+                    let mut cmd = Command::new(&scc);
+                    cmd.current_dir(&wd).env_clear().env("PATH", "/usr/bin:/bin");
+                    cmd.arg(sub[0]).arg("prog.sc");
+                    for extra in &sub[1..] {
+                        cmd.arg(extra);
+                    }
+                    let _ = cmd.output();
+                }
+            }
             std::fs::write(&file, &src).unwrap();
             for sub in [vec!["compile"], vec!["focus"], vec!["shrink"], vec!["linearize"], vec!["codegen", "x86-64"], vec!["codegen", "aarch64"]] {
                 let mut cmd = Command::new(&scc);
